@@ -2,6 +2,7 @@ package chain
 
 import (
 	"fmt"
+	"github.com/MinterTeam/minter-go-node/coreV2/state/swap"
 	"github.com/MinterTeam/minter-go-node/rlp"
 	"math/big"
 	"math/rand"
@@ -791,10 +792,10 @@ func init() {
 			return sc
 		},
 		Monitors: func(sc *Scenario) []Monitor {
-			return []Monitor{&MonProbe{Oracles: []Prober{&OracleC14{}}}, MonC14Expiry{}}
+			return []Monitor{&MonProbe{Oracles: []Prober{&OracleC14{}}}, MonC14Expiry{}, MonC14Book{}}
 		},
 		Distinct:     probeDistinct,
-		ExpectProbes: []string{"c14_order_placed", "c14_fill_checked", "c14_trade_with_fills", "c14_trade_with_several_fills", "c14_cancel_checked", "c14_expiry_checked", "c14_cancel_by_stranger_rejected", "c14_closed_remainder_refund_checked", "c14_equal_price_neighbours_consumed"},
+		ExpectProbes: []string{"c14_order_placed", "c14_fill_checked", "c14_trade_with_fills", "c14_trade_with_several_fills", "c14_cancel_checked", "c14_expiry_checked", "c14_cancel_by_stranger_rejected", "c14_closed_remainder_refund_checked", "c14_equal_price_neighbours_consumed", "c14_fresh_book_listing_checked"},
 	})
 }
 
@@ -818,4 +819,90 @@ func PoolProfile(orders bool) Profile {
 	p.PBigAmt = 0.08
 	p.TxMin, p.TxMax = 1, 6
 	return p
+}
+
+// MonC14Book: after a block that touched an order book, a freshly started node over the same disk
+// lists every pool's book (both sides, read from the committed price index): exactly the orders of
+// the committed state, each once, best price first and lower id first among equal prices.
+type MonC14Book struct{ NopMonitor }
+
+func (MonC14Book) AfterBlock(w *World, b *BlockCtx) {
+	if b.Cur == nil || w.Viol != nil || b.Height == w.Sc.InitialH {
+		return
+	}
+	touched := false
+	for i, m := range b.Metas {
+		if i >= len(b.Res.Deliver) || b.Res.Deliver[i].Code != 0 {
+			continue
+		}
+		switch m.Data.(type) {
+		case transaction.AddLimitOrderData, transaction.RemoveLimitOrderData, transaction.SellSwapPoolDataV260, transaction.BuySwapPoolDataV260, transaction.SellAllSwapPoolDataV260:
+			touched = true
+		}
+		if m.GasCoin != 0 {
+			touched = true
+		}
+	}
+	if !touched {
+		return
+	}
+	has := false
+	for _, p := range b.Cur.Pools {
+		if len(p.Orders) > 0 {
+			has = true
+		}
+	}
+	if !has {
+		return
+	}
+	n, cerr := OpenNode(w.Disk.Clone(), w.Sc.Node)
+	if cerr != nil {
+		return
+	}
+	defer n.Release()
+	cs := n.App.CurrentState()
+	if cs == nil {
+		return
+	}
+	for _, p := range b.Cur.Pools {
+		want := map[uint64]*ord{}
+		for id, o := range ordersOf(b.Cur) {
+			if o.pool == pairKey(p.Coin0, p.Coin1) {
+				want[id] = o
+			}
+		}
+		sw := cs.Swap().GetSwapper(coinID(p.Coin0), coinID(p.Coin1))
+		seen := map[uint64]bool{}
+		for side, s := range []swap.EditableChecker{sw, sw.Reverse()} {
+			var prev *ord
+			for _, l := range s.OrdersSell(10000) {
+				if l == nil {
+					continue
+				}
+				id := uint64(l.ID())
+				o := want[id]
+				if o == nil {
+					w.Report("C14", "orders", "book-lists-unknown-order", fmt.Sprintf("height %d: a freshly started node lists order %d in the book of pool %d (side %d); the committed state has no such order there", b.Height, id, p.ID, side), b.Height)
+					return
+				}
+				if seen[id] {
+					w.Report("C14", "orders", "book-lists-order-twice", fmt.Sprintf("height %d: a freshly started node lists order %d twice in the book of pool %d", b.Height, id, p.ID), b.Height)
+					return
+				}
+				seen[id] = true
+				if prev != nil && prev.sale == o.sale && better(o, prev) {
+					w.Report("C14", "orders", "book-order", fmt.Sprintf("height %d: a freshly started node lists order %d (%s for %s) before order %d (%s for %s) in pool %d although the latter is ahead (price, then id)", b.Height, prev.id, prev.sell, prev.buy, o.id, o.sell, o.buy, p.ID), b.Height)
+					return
+				}
+				prev = o
+			}
+		}
+		for id := range want {
+			if !seen[id] {
+				w.Report("C14", "orders", "book-misses-order", fmt.Sprintf("height %d: a freshly started node does not list order %d of pool %d when it reads the book from disk", b.Height, id, p.ID), b.Height)
+				return
+			}
+		}
+	}
+	w.Probe("c14_fresh_book_listing_checked")
 }
